@@ -24,6 +24,7 @@ type Step struct {
 	Kind  StepKind
 	Field int
 	Index *Term
+	Off   *Term      // symbolic offset of the slice view the index is relative to (nil: Index is absolute)
 	T     types.Type // type of the location after this step
 }
 
@@ -234,6 +235,9 @@ func ptrKey(v *PtrV) string {
 			fmt.Fprintf(&sb, ".%d", s.Field)
 		} else {
 			fmt.Fprintf(&sb, "[%d]", s.Index.id)
+			if s.Off != nil {
+				fmt.Fprintf(&sb, "+%d", s.Off.id)
+			}
 		}
 	}
 	return sb.String()
@@ -246,11 +250,49 @@ func (ex *Exec) getAt(v *Term, path []Step) *Term {
 	for _, s := range path {
 		if s.Kind == StepField {
 			v = ex.p.Acc(v, s.Field)
+		} else if s.Off != nil {
+			v = ex.elemAt(v, s.Off, s.Index)
 		} else {
 			v = ex.p.Select(v, s.Index)
 		}
 	}
 	return v
+}
+
+// elemAt is element i of the view of array b that starts at offset off. With a symbolic offset the view is the
+// uninterpreted shiftArr(b, off) (one global axiom), so that quantified facts about s[k] have an arithmetic-free
+// trigger; with a literal zero offset, or over an array being built by stores, it is the plain select.
+func (ex *Exec) elemAt(b, off, i *Term) *Term {
+	p := ex.p
+	if off.Op == "int" && off.Int.Sign() == 0 {
+		return p.Select(b, i)
+	}
+	if off.Op == "int" || b.Op == "store" {
+		return p.Select(b, p.Add(off, i))
+	}
+	return p.Select(ex.shiftView(b, off), i)
+}
+
+func (ex *Exec) shiftView(b, off *Term) *Term {
+	p := ex.p
+	f := p.Func("shiftArr:"+b.Sort.Elem.String(), []*Sort{b.Sort, IntSort}, b.Sort)
+	akey := "shift-axiom:" + b.Sort.String()
+	if !ex.shiftAxiomDone[akey] {
+		ex.shiftAxiomDone[akey] = true
+		bb := p.BoundVar("b", b.Sort)
+		oo := p.BoundVar("o", IntSort)
+		ii := p.BoundVar("i", IntSort)
+		sel := p.Select(p.App(f, bb, oo), ii)
+		ex.facts = append(ex.facts, p.Forall([]*Term{bb, oo, ii}, p.Eq(sel, p.Select(bb, p.Add(oo, ii))), []*Term{sel}))
+	}
+	return p.App(f, b, off)
+}
+
+func (s Step) absIndex(p *Pool) *Term {
+	if s.Off != nil {
+		return p.Add(s.Off, s.Index)
+	}
+	return s.Index
 }
 
 func (ex *Exec) setAt(v *Term, path []Step, nv *Term) *Term {
@@ -265,11 +307,12 @@ func (ex *Exec) setAt(v *Term, path []Step, nv *Term) *Term {
 		inner := ex.setAt(ex.p.Acc(v, s.Field), path[1:], nv)
 		return ex.p.With(v, s.Field, inner)
 	}
+	ai := s.absIndex(ex.p)
 	if len(path) == 1 {
-		return ex.p.Store(v, s.Index, nv)
+		return ex.p.Store(v, ai, nv)
 	}
-	inner := ex.setAt(ex.p.Select(v, s.Index), path[1:], nv)
-	return ex.p.Store(v, s.Index, inner)
+	inner := ex.setAt(ex.p.Select(v, ai), path[1:], nv)
+	return ex.p.Store(v, ai, inner)
 }
 
 func (ex *Exec) nonNil(st *State, ref *Term, what string, pos string) {
